@@ -65,7 +65,7 @@ impl Engine for CoreEngine {
     }
 
     fn rule(&self, property: &str) -> String {
-        let common = "Each run draws swarm knobs, an animator configuration (<=5 states, <=3 merged components, <=6 keyframes, permuted insertion order, 29 easings, delay/repeat/reverse/infinite) and a trace of <=48 operations from one PRNG stream; ";
+        let common = "Each run draws swarm knobs, an animator configuration (5 states, 1-3 merged components - one merge in sixteen up to 9 -, usually <=9 keyframes, rarely dozens to 70,000, permuted insertion order, 29 easings, delay/repeat/reverse/infinite; one run in nine with two states sharing one definition) and a trace of <=48 operations (4% of the runs <=200; one run in 97 continues with a marathon tail of 250-1500 operations, thorough -4000; one run in 400 idles for 70,000 zero-length frames) from one PRNG stream; ";
         let specific = match property {
             "C04" => "evaluation = one set_state call compared before/after; non-trivial = the target state's own 0% value differs from the current value for a keyframed property, or the call resumes a paused animation; distinct = (source phase, remembered-pause relation, transition kind, target delayed?, merged size, history length) tuples",
             "C05" => "evaluation = one operation compared with the reference model; non-trivial = a state change or a phase change; distinct = (phase before, remembered relation, operation kind, phase after, history length) tuples",
